@@ -97,7 +97,7 @@ def worker(ctx):
                     work.append((m, t, name, v))
                     res.case(True, t.text(), offset, name)  # an evaluation = one probe (type, pad width, probed leaf/value)
                     for it in ref.leaves(m, v):
-                        if it.path[0] in (2, 3, 4, 5, 6, 7, 8, 10):
+                        if it.path[0] in (2, 3, 4, 5, 6, 7, 8, 9, 10):
                             res.observe("cells", f"{t.text()}@{it.offset % 8}:{probes.position_of(it.path)}")
             # ---- Python runtime ---------------------------------------------
             mods = sut_py.PyModules(dstd, root)
@@ -208,8 +208,8 @@ GO = True
 
 def extra(res):
     cells = res.sets.get("cells", set())
-    return {"cells_observed": len(cells), "cells_in_space": 130 * 8 * 5,
-            "exhaustive": len(cells) == 130 * 8 * 5 and res.counters.get("full_basis", 0) > 0 and not res.budget_exhausted}
+    return {"cells_observed": len(cells), "cells_in_space": 130 * 8 * 6,
+            "exhaustive": len(cells) == 130 * 8 * 6 and res.counters.get("full_basis", 0) > 0 and not res.budget_exhausted}
 
 
 if __name__ == "__main__":
